@@ -506,7 +506,7 @@ pub fn f4_case(idxs: &[usize]) -> SemCase {
 pub fn f8(tier: Tier) -> Vec<SemCase> {
     let mut v = Vec::new();
     // (statement, approximate size in bytes)
-    let stmts: Vec<(&str, usize)> = vec![("r++;", 2), ("r = 1;", 4), ("X++;", 1), ("c = c + 1;", 7), ("arr[X] = 1;", 4), ("asm(\"NOP\", 1);", 1), ("s++;", 6), ("arr[Y] = c;", 5), ("c = arr[Y];", 5), ("sarr[X] = s;", 8), ("ib();", 6), ("ij();", 11)];
+    let stmts: Vec<(&str, usize)> = vec![("r++;", 2), ("r = 1;", 4), ("X++;", 1), ("c = c + 1;", 7), ("arr[X] = 1;", 4), ("asm(\"NOP\", 1);", 1), ("s++;", 6), ("arr[Y] = c;", 5), ("c = arr[Y];", 5), ("sarr[X] = s;", 8), ("ib();", 6), ("ij();", 11), ("sarr[Y] = s;", 10), ("s = sarr[Y];", 10)];
     let templates: Vec<(&str, &str)> = vec![
         ("if (a) {", "}"),
         ("if (a) {", "} else r = 7;"),
